@@ -73,6 +73,9 @@ def _float_normalised(prog, fi, e, depth=0):
             return True
         if isinstance(e.func, ast.Attribute) and e.func.attr == "astype" and e.args and norm_text(e.args[0]) in ("float", "np.float64", "np.double"):
             return True
+        if isinstance(e.func, ast.Attribute) and e.func.attr in ("copy", "ravel", "flatten", "squeeze", "reshape") and \
+                _float_normalised(prog, fi, e.func.value, depth + 1):
+            return True                     # element type preserving methods
         for k in prog.resolve_call(fi, e):
             callee = prog.functions.get(k)
             if callee is not None:
